@@ -1,25 +1,14 @@
-//! G1 probes: leaves, Option<L>, List<L>, Result<L,M>, Verdict<L,M>; aliens; arity
-use crate::probe::{Table, Unreg, probe};
-use crate::{add, six, twenty};
-use roto::{List, Val, Verdict};
+//! G1 probes, part 2: Result<L,M>, Verdict<L,M> over the 6-leaf set; types
+//! unknown to the runtime; the 36 arity signatures; mixed signatures
+use c04p::probe::{Table, Unreg, probe};
+use c04p::{add, six};
+use roto::{Val, Verdict};
 
-macro_rules! leaf { ($v:ident $t:ty) => { add!($v $t); }; }
-macro_rules! o { ($v:ident $t:ty) => { add!($v Option<$t>); }; }
-macro_rules! li { ($v:ident $t:ty) => { add!($v List<$t>); }; }
 macro_rules! r { ($v:ident $a:ty, $b:ty) => { add!($v Result<$a, $b>); }; }
 macro_rules! r_row { ($v:ident $a:ty) => { six!(r!($v $a,)); }; }
 macro_rules! vd { ($v:ident $a:ty, $b:ty) => { add!($v Verdict<$a, $b>); }; }
 macro_rules! vd_row { ($v:ident $a:ty) => { six!(vd!($v $a,)); }; }
 
-pub fn leaves(v: &mut Table) {
-    twenty!(leaf!(v));
-}
-pub fn options(v: &mut Table) {
-    twenty!(o!(v));
-}
-pub fn lists(v: &mut Table) {
-    twenty!(li!(v));
-}
 pub fn results(v: &mut Table) {
     six!(r_row!(v));
 }
@@ -86,4 +75,7 @@ pub fn mixed(v: &mut Table) {
     v.push(probe::<fn(u8) -> Verdict<u8, ()>>());
     v.push(probe::<fn(u32) -> Verdict<(), u32>>());
     v.push(probe::<fn(u32) -> Verdict<u32, ()>>());
+    v.push(probe::<fn(u8, u32) -> u8>());
+    v.push(probe::<fn(u8, u32) -> u32>());
+    v.push(probe::<fn(u8, u8, u8, u8, u8, u8, u8) -> u8>());
 }
